@@ -129,7 +129,7 @@ fn finite_seqs(interp: &Interp, max_len: i64, thorough: bool, notes: &mut Vec<St
         }
         raw.push(("bytes", format!("B\"{}\"", s), true));
         if n >= 1 {
-            let bs: Vec<String> = (0..n).map(|k| format!("{}", 249 + k)).collect();
+            let bs: Vec<String> = (0..n).map(|k| format!("{}", 248 + k)).collect();
             raw.push(("bytes", format!("bytes([{}])", bs.join(",")), true));
         }
         raw.push(("range", format!("(1 to {})", n), true));
@@ -375,7 +375,12 @@ fn gen_for_seq(cases: &mut Vec<Case>, s: &SeqV, rng: &mut Rng, slice_extra_forms
         let cls = slice_class(s, a, b);
         let req = format!("slice {} {} {}", s.req, bound_req(a), bound_req(b));
         push(cases, "slice", "expr", s, cls, format!("{}[{}:{}]", s.src, bound_src(a), bound_src(b)), req.clone(), true);
-        if slice_extra_forms || rng.chance(1, 3) {
+        if slice_extra_forms {
+            for w in 0..4 {
+                let (form, src) = slice_form(s, a, b, w);
+                push(cases, "slice", form, s, cls, src, req.clone(), true);
+            }
+        } else {
             let (form, src) = slice_form(s, a, b, rng.next());
             push(cases, "slice", form, s, cls, src, req.clone(), true);
         }
@@ -554,6 +559,28 @@ fn gen_nested(cases: &mut Vec<Case>, rng: &mut Rng) {
                 format!("set {} 9 i={} i={}", s.req, i.req, j.req),
                 true,
             );
+            push(
+                cases,
+                "rmip",
+                "path",
+                &s,
+                cls,
+                format!("x = {}; r = remove x[{}][{}]; [r, x]", s.src, i.src, j.src),
+                format!("rmip {} {} i={}", s.req, j.req, i.req),
+                true,
+            );
+            if m == 0 {
+                push(
+                    cases,
+                    "popp",
+                    "path",
+                    &s,
+                    cls,
+                    format!("x = {}; r = pop x[{}]; [r, x]", s.src, i.src),
+                    format!("popp {} i={}", s.req, i.req),
+                    true,
+                );
+            }
             if rng.chance(1, 2) {
                 push(
                     cases,
@@ -727,16 +754,35 @@ fn main() {
     let mut rng = Rng::new(args.seed);
     let mut notes = vec![];
     let mut cases: Vec<Case> = vec![];
+    // corpus first: minimised past failures (input / request pairs)
+    let corpus_dir = std::path::Path::new(&args.known).parent().map(|p| p.join("corpus/C10"));
+    if let Some(dir) = corpus_dir {
+        let mut files: Vec<_> = std::fs::read_dir(&dir).map(|d| d.filter_map(|e| e.ok()).map(|e| e.path()).collect()).unwrap_or_default();
+        files.sort();
+        for f in files {
+            let text = std::fs::read_to_string(&f).unwrap_or_default();
+            let mut input: Option<String> = None;
+            for line in text.lines() {
+                if let Some(rest) = line.strip_prefix("input: ") {
+                    input = Some(rest.to_string());
+                } else if let Some(rest) = line.strip_prefix("request: ") {
+                    if let Some(src) = input.take() {
+                        cases.push(Case { key: "corpus".into(), arm: "corpus".into(), src, req: rest.to_string(), nontrivial: true });
+                    }
+                }
+            }
+        }
+    }
     let mut seqs = finite_seqs(&interp, max_len, thorough, &mut notes);
     seqs.extend(infinite_seqs());
     for s in &seqs {
-        gen_for_seq(&mut cases, s, &mut rng, false);
+        gen_for_seq(&mut cases, s, &mut rng, thorough);
     }
     gen_nested(&mut cases, &mut rng);
     if thorough {
-        random_long(&mut cases, &interp, &mut rng, 400, &mut notes);
+        random_long(&mut cases, &interp, &mut rng, 5000, &mut notes);
     } else {
-        random_long(&mut cases, &interp, &mut rng, 12, &mut notes);
+        random_long(&mut cases, &interp, &mut rng, 60, &mut notes);
     }
     rep.notes.extend(notes);
 
@@ -757,6 +803,8 @@ fn main() {
     // the model
     let requests: Vec<String> = cases.iter().map(|c| c.req.clone()).collect();
     let resp = run_driver(&args.driver, &requests);
+    let mut charwise = 0u64;
+    let mut charwise_by_key: std::collections::HashMap<String, u64> = Default::default();
     for (i, c) in cases.iter().enumerate() {
         let rust = rust_out[i].class();
         let full_input = format!("{}\nrequest: {}", c.src, c.req);
@@ -769,6 +817,13 @@ fn main() {
         let mut key = c.key.clone();
         if (key == "a1:uncons(strU)" || key == "a1:unsnoc(strU)") && rust == parts[0] && rust != parts[1] {
             key.push_str("#charwise");
+            // recorded deviation: keep a few instances, count the rest (the report caps disagreements)
+            charwise += 1;
+            let n = charwise_by_key.entry(key.clone()).or_insert(0u64);
+            *n += 1;
+            if *n > 4 {
+                continue;
+            }
         }
         if !rep.judge(&key, &full_input, &rust, parts[0], parts[1]) && rep.fidelity.len() < 10 {
             if let Outcome::Panic(m) | Outcome::Throw(m) = &rust_out[i] {
@@ -776,5 +831,6 @@ fn main() {
             }
         }
     }
+    rep.notes.push(format!("uncons/unsnoc of a non-ASCII string, char-wise instead of byte-wise (recorded deviation): {} cases", charwise));
     rep.write(&args.out);
 }
